@@ -34,6 +34,11 @@ func (fr *Frame) execCall(v ssa.Value, c *ssa.CallCommon, in ssa.Instruction) {
 				}
 			}
 		}
+		if tv, ok := recv.(TV); ok && unionCases[tv.T.Sort] != nil && c.Signature().Results().Len() == 0 {
+			if fr.invokeUnion(tv, c, args, in) {
+				return
+			}
+		}
 		fr.externalResult(v, c, in, "interface method "+c.Method.FullName())
 		return
 	}
@@ -105,12 +110,23 @@ func (fr *Frame) callFunc(v ssa.Value, f *ssa.Function, args []Val, bind []Val, 
 			fr.setRes(v, r)
 			return
 		}
+		if r, ok := fr.hashNative(f, args, in); ok {
+			fr.setRes(v, r)
+			return
+		}
 	}
 	if r, ok := fr.nativeCall(f, args, in); ok {
 		fr.setRes(v, r)
 		return
 	}
 	con := ex.P.Store.Funcs[key]
+	if con != nil && con.Abstract && ex.Con != nil {
+		for _, cn := range ex.Con.Concrete {
+			if cn == shortName(key) {
+				con = nil // the unit under verification asks for the callee's body
+			}
+		}
+	}
 	if con != nil && con.Abstract {
 		var ts []*Term
 		for _, a := range args {
@@ -139,6 +155,8 @@ func (fr *Frame) callFunc(v ssa.Value, f *ssa.Function, args []Val, bind []Val, 
 			// instantiated generic of the module: fall through to inlining
 		} else if f.Pkg == nil && f.Blocks != nil && f.Parent() != nil && f.Parent().Pkg != nil && strings.HasPrefix(f.Parent().Pkg.Pkg.Path(), modPath) {
 			// closure of a module function
+		} else if f.Pkg == nil && f.Blocks != nil && strings.HasPrefix(f.Synthetic, "wrapper for") && strings.Contains(f.String(), modPath) {
+			// pointer-receiver wrapper of a value method of the module: its body calls the method
 		} else {
 			fr.externalResult(v, callCommon(in), in, "call to external function without contract: "+shortName(f.String()))
 			return
@@ -150,7 +168,7 @@ func (fr *Frame) callFunc(v ssa.Value, f *ssa.Function, args []Val, bind []Val, 
 	}
 	// inline
 	ex.Inlined[shortName(f.String())] = true
-	sub := &Frame{ex: ex, fn: f, con: con, prefix: fr.site(in) + "/"}
+	sub := &Frame{ex: ex, fn: f, con: con, prefix: fr.site(in) + "/", inheritSeg: fr.curSeg()}
 	ex.stack = append(ex.stack, f)
 	ex.depth++
 	sub.run(args, bind, fr.mem, fr.cur)
@@ -690,4 +708,50 @@ func (fr *Frame) modifiesSliceParam() bool {
 		}
 	}
 	return false
+}
+
+// invokeUnion: a method without results invoked on a value of a sealed interface (tagged union):
+// one guarded call per implementer, the memories merged afterwards.
+func (fr *Frame) invokeUnion(tv TV, c *ssa.CallCommon, args []Val, in ssa.Instruction) bool {
+	ex := fr.ex
+	cases := unionCases[tv.T.Sort]
+	type target struct {
+		f    *ssa.Function
+		recv Val
+		g    *Term
+	}
+	var ts []target
+	for _, uc := range cases {
+		ms := ex.P.SSA.MethodSets.MethodSet(uc.Typ)
+		sel := ms.Lookup(c.Method.Pkg(), c.Method.Name())
+		if sel == nil {
+			return false
+		}
+		f := ex.P.SSA.MethodValue(sel)
+		if f == nil {
+			return false
+		}
+		payload := Typed(SelField(uc.Ctor, 0, tv.T), uc.Elem)
+		var recv Val = TV{payload, uc.Elem}
+		if _, isP := uc.Typ.(*types.Pointer); isP {
+			recv = ValPtr{Root: payload, Elem: uc.Elem}
+		}
+		ts = append(ts, target{f, recv, IsCtor(uc.Ctor, tv.T)})
+	}
+	fr.safety(in, "nil", Not(IsCtor(tv.T.Sort.Ctors[0], tv.T)))
+	cur0, mem0 := fr.cur, fr.mem
+	var gs []*Term
+	var ms []Mem
+	for _, t := range ts {
+		fr.cur = And(cur0, t.g)
+		fr.mem = mem0.clone()
+		if !fr.cur.IsFalse() {
+			fr.callFunc(nil, t.f, append([]Val{t.recv}, args...), nil, in)
+		}
+		gs = append(gs, fr.cur)
+		ms = append(ms, fr.mem)
+	}
+	fr.mem = mergeMem(gs, ms).clone()
+	fr.cur = Or(gs...)
+	return true
 }
